@@ -232,30 +232,36 @@ def u_session(ctx, u):
                 total = min(total, 1700)
             data = pattern(u['_i'] * 1000 + sch * 10 + 9, total)
             ech = {'got': bytearray(), 'sent_back': 0, 'refused': 0, 'err': None}
+            reply = pattern(u['_i'] * 1000 + sch * 10 + 8, total)
 
             def echo_side(ep=s):
+                # after every (partial) read the echo side writes a piece of its own reply stream whose size has nothing to do
+                # with what it has consumed so far - often more than that (a reply staged in the buffer that still holds the
+                # unread rest of the peer's record must not disturb it)
                 ep.thread_setup()
-                pending = bytearray()
                 seen = 0
+                off = 0
                 while seen < total:
                     r, d, over = ep.recv(cap)
                     if r != 1:
                         ech['err'] = ('recv', r)
                         return
                     seen += len(d)
-                    pending.extend(d)
-                    rr, n = ep.send_once(bytes(pending[:16384]))
-                    if rr == 1 and n > 0:
-                        del pending[:n]
-                        ech['sent_back'] += n
-                    else:
-                        ech['refused'] += 1          # allowed while plaintext is buffered (CBC protocols)
-                while pending:
-                    rr, n = ep.send_once(bytes(pending[:16384]))
+                    ech['got'].extend(d)
+                    if off < total:
+                        want = min(total - off, rng.choice([1, 7, 100, 1000, 4000]))
+                        rr, n = ep.send_once(reply[off:off + want])
+                        if rr == 1 and n > 0:
+                            off += n
+                            ech['sent_back'] += n
+                        else:
+                            ech['refused'] += 1          # allowed while plaintext is buffered (CBC protocols)
+                while off < total:
+                    rr, n = ep.send_once(reply[off:off + 16384])
                     if rr != 1 or n == 0:
                         ech['err'] = ('send', rr)
                         return
-                    del pending[:n]
+                    off += n
                     ech['sent_back'] += n
                 ep.thread_finish()
             th = threading.Thread(target=echo_side)
@@ -287,7 +293,7 @@ def u_session(ctx, u):
                 ctx.violation('stream:echo-hang:' + u['proto'], **det)
                 okk_all = False
             else:
-                diff = locate(data, bytes(back))
+                diff = locate(reply, bytes(back)) or locate(data, bytes(ech['got']))
                 if not ctx.check(sok and diff is None, 'stream:not-conserved:echo-with-partial-reads:' + u['proto'], diff=diff, **det):
                     okk_all = False
                 ctx.nontrivial(u['proto'], 'echo', total, cap, ech['refused'] > 0)
